@@ -438,6 +438,20 @@ fn stress(shared: &Arc<Shared>, out: &mut ChildOut, secs: u64, seed: u64) {
         }
     }
     stop.store(true, Ordering::SeqCst);
+    // let the client threads finish their current request; a thread that cannot is blocked on a lock
+    let t1 = Instant::now();
+    while stuck.lock().unwrap().is_empty() && handles.iter().any(|h| !h.is_finished()) && t1.elapsed() < Duration::from_secs(40) {
+        std::thread::sleep(Duration::from_millis(100));
+        let g = shared.m.lock().unwrap();
+        for (t, (_, mode, ty, site, since)) in g.attempts.iter() {
+            if since.elapsed() > Duration::from_secs(10) {
+                stuck.lock().unwrap().push(json!({"thread": format!("{:?}", t), "waits_for": ty, "mode": format!("{:?}", mode), "at": site, "for_ms": since.elapsed().as_millis() as u64}));
+            }
+        }
+    }
+    if stuck.lock().unwrap().is_empty() && handles.iter().any(|h| !h.is_finished()) {
+        stuck.lock().unwrap().push(json!({"note": "client threads did not finish within 40 s after the stop signal"}));
+    }
     if stuck.lock().unwrap().is_empty() {
         for h in handles {
             let _ = h.join();
